@@ -337,37 +337,54 @@ func (s *scripted) arr() string {
 	return strings.Join(l, ",") + " tn=" + strings.Join(tn, ",")
 }
 
-// sharedSliceFact re-reads handler.go: is every per-height goroutine started with the one slice `jobS`?
-func sharedSliceFact() string {
+// cloneFact re-reads download.go: does downloadBlock work on its own copy of the task list (tasks = tasks.clone())
+// and remove failed peers with tasks.drop (not the index-based Remove)?
+func cloneFact() string {
 	dir := os.Getenv("VERIF_REPO")
 	if dir == "" {
 		dir = "/repo"
 	}
 	fset := token.NewFileSet()
-	f, err := parser.ParseFile(fset, filepath.Join(dir, "system/p2p/dht/protocol/download/handler.go"), nil, 0)
+	f, err := parser.ParseFile(fset, filepath.Join(dir, "system/p2p/dht/protocol/download/download.go"), nil, 0)
 	if err != nil {
 		return "unreadable"
 	}
-	res := "no-go-stmt"
+	clone, drop, remove := false, false, false
 	ast.Inspect(f, func(n ast.Node) bool {
 		fd, ok := n.(*ast.FuncDecl)
-		if !ok || fd.Name.Name != "handleEventDownloadBlock" {
+		if !ok || fd.Name.Name != "downloadBlock" {
 			return true
 		}
 		ast.Inspect(fd, func(m ast.Node) bool {
-			g, ok := m.(*ast.GoStmt)
-			if !ok || len(g.Call.Args) != 2 {
-				return true
-			}
-			res = "0"
-			if id, ok := g.Call.Args[1].(*ast.Ident); ok && id.Name == "jobS" {
-				res = "1"
+			switch x := m.(type) {
+			case *ast.AssignStmt:
+				if len(x.Lhs) == 1 && len(x.Rhs) == 1 {
+					if id, ok := x.Lhs[0].(*ast.Ident); ok && id.Name == "tasks" {
+						if c, ok := x.Rhs[0].(*ast.CallExpr); ok {
+							if sel, ok := c.Fun.(*ast.SelectorExpr); ok {
+								if r, ok := sel.X.(*ast.Ident); ok && r.Name == "tasks" {
+									switch sel.Sel.Name {
+									case "clone":
+										clone = true
+									case "drop":
+										drop = true
+									case "Remove":
+										remove = true
+									}
+								}
+							}
+						}
+					}
+				}
 			}
 			return true
 		})
 		return false
 	})
-	return res
+	if clone && drop && !remove {
+		return "1"
+	}
+	return "0"
 }
 
 // beh: what peer p does with a request for height h: -1 fail, otherwise the height of the block it returns
@@ -428,7 +445,7 @@ func runScripted(e *env, r *gen.Rand, npeers int, heights []int64, beh behaviour
 			res := "bounded"
 			select {
 			case <-st.Blocked:
-				if !st.HadDeadline() {
+				if d := st.Deadline(); !st.HadDeadline() || time.Until(d) > 10*time.Minute {
 					res = "unbounded"
 					pred("C35|downloadBlockFromPeerOld|read-without-deadline",
 						fmt.Sprintf("height %d: the worker reads the reply of a silent peer with no stream deadline set (the 10 s context only covers NewStream)", wk.height))
@@ -459,6 +476,9 @@ func runScripted(e *env, r *gen.Rand, npeers int, heights []int64, beh behaviour
 			wk.failed[p] = true
 			s.op(fmt.Sprintf("reply %d fail", w), s.reply(w, failDecision(r.Intn(6))))
 		} else {
+			if got != wk.height {
+				wk.failed[p] = true // if the code rejects the block, p has failed this height
+			}
 			s.op(fmt.Sprintf("reply %d ok %d", w, got), s.reply(w, decision{bytes: okReply(got, r.Intn(2))}))
 		}
 		if r.Chance(1, 3) {
@@ -497,6 +517,9 @@ func runScripted(e *env, r *gen.Rand, npeers int, heights []int64, beh behaviour
 				wk.failed[p] = true
 				s2.op("reply 0 fail", s2.reply(0, failDecision(r.Intn(6))))
 			} else {
+				if got != wk.height {
+					wk.failed[p] = true
+				}
 				s2.op(fmt.Sprintf("reply 0 ok %d", got), s2.reply(0, decision{bytes: okReply(got, 0)}))
 			}
 		}
@@ -583,7 +606,7 @@ func runStress(e *env, r *gen.Rand, npeers int, start, end int64, beh behaviour,
 				case <-s.Blocked:
 				case <-time.After(longWait):
 				}
-				if !s.HadDeadline() {
+				if d := s.Deadline(); !s.HadDeadline() || time.Until(d) > 10*time.Minute {
 					pred("C35|downloadBlockFromPeerOld|read-without-deadline", "concurrent run: reply of a silent peer read with no deadline")
 				}
 				s.Release()
@@ -652,9 +675,9 @@ func main() {
 		replay(e, r, lines)
 		return
 	}
-	out.Op("fact shared-task-slice", sharedSliceFact())
-	// witness 1 (Lean: reask_witness): peers [A,B]; A fails height 1; the worker for height 2 starts after A was
-	// removed by the first worker and finds B twice in its view
+	out.Op("fact worker-clones-list", cloneFact())
+	// regression schedule (Lean: old_reask_witness / reask_schedule_now): peers [A,B]; A fails height 1; the worker for
+	// height 2 starts after the first worker removed A — before repair eac7298 it then found B twice in its view
 	replay(e, r, witnessReask)
 	// witness 2: wrong height accepted
 	runScripted(e, r, 1, []int64{7}, func(p int, h int64) int64 { return h + 100 }, func(f []int) int { return 0 }, 0, nil)
@@ -780,6 +803,9 @@ func replay(e *env, r *gen.Rand, lines []string) {
 			} else {
 				var h int64
 				fmt.Sscan(f[3], &h)
+				if h != wk.height {
+					wk.failed[wk.pending.peer] = true
+				}
 				s.op(l, s.reply(w, decision{bytes: okReply(h, 0)}))
 			}
 		case "arr":
